@@ -1318,18 +1318,23 @@ def check_fac_uc(case):
     unique = case.get("unique", True)
     ncross, nprogeny, nself = case.get("ncross", 1), case.get("nprogeny", 10), case.get("nself", 0)
     fails = []
+    npar = case.get("npar", 2)
     if case.get("vmat", "stub") == "stub":
-        V = rs.uniform(0.0, 4.0, (n, n, t))                  # deliberately not symmetric: [female][male][trait]
+        V = rs.uniform(0.0, 4.0, (n,) * npar + (t,))         # deliberately not symmetric: [female][male][trait]
         V[rs.uniform(size=V.shape) < 0.15] = 0.0
         calls = []
+        if npar == 3:
+            from pybrops.model.vmat.DenseThreeWayDHAdditiveGeneticVarianceMatrix import DenseThreeWayDHAdditiveGeneticVarianceMatrix as VM
+        else:
+            VM = DenseTwoWayDHAdditiveGeneticVarianceMatrix
 
         class Stub(GeneticVarianceMatrixFactory):
             def from_gmod(self, gmod, pgmat, ncross, nprogeny, nself, gmapfn, **kwargs):
                 calls.append(dict(gmod=gmod, pgmat=pgmat, ncross=ncross, nprogeny=nprogeny, nself=nself, gmapfn=gmapfn))
-                return DenseTwoWayDHAdditiveGeneticVarianceMatrix(mat=V.copy(), taxa=pgmat.taxa, taxa_grp=pgmat.taxa_grp)
+                return VM(mat=V.copy(), taxa=pgmat.taxa, taxa_grp=pgmat.taxa_grp)
         fcty = Stub()
         var = V.tolist()
-        epgc = [0.5, 0.5]
+        epgc = [float(v) for v in VM(mat=V.copy()).epgc]     # the design's expected parental genome contributions (unequal for 3-way)
     else:
         from pybrops.model.vmat.fcty.DenseTwoWayDHAdditiveGeneticVarianceMatrixFactory import DenseTwoWayDHAdditiveGeneticVarianceMatrixFactory
         fcty = DenseTwoWayDHAdditiveGeneticVarianceMatrixFactory()
@@ -1339,24 +1344,27 @@ def check_fac_uc(case):
         calls = None
     gebv = pop_gebv(pop)
     if case.get("xmap") == "given":
-        full = cross_map(n, 2, False)
+        full = cross_map(n, npar, False)
         idx = rs.permutation(len(full))[:max(1, len(full) // 2)]
         xm = [full[i][::-1] if rs.uniform() < 0.5 else full[i] for i in idx]       # arbitrary order, female/male either way
     else:
-        xm = cross_map(n, 2, unique)
+        xm = cross_map(n, npar, unique)
     si = selection_intensity(q)
     UC = []
     for cfg in xm:
         row = []
         for tt in range(t):
-            pm = sum(epgc[a] * gebv[cfg[a]][tt] for a in range(2))
-            row.append(pm + si * math.sqrt(var[cfg[0]][cfg[1]][tt]))
+            pm = sum(epgc[a] * gebv[cfg[a]][tt] for a in range(npar))
+            vv = var
+            for a in range(npar):
+                vv = vv[cfg[a]]
+            row.append(pm + si * math.sqrt(vv[tt]))
         UC.append(row)
     nx = len(xm)
 
     def build(enc, k):
         cls = get_class("uc", enc)
-        common = dict(nparent=2, ncross=ncross, nprogeny=nprogeny, nself=nself, upper_percentile=q, vmatfcty=fcty, gmapfn=gmapfn,
+        common = dict(nparent=npar, ncross=ncross, nprogeny=nprogeny, nself=nself, upper_percentile=q, vmatfcty=fcty, gmapfn=gmapfn,
                       unique_parents=unique, pgmat=g, gpmod=algmod)
         if case.get("xmap") == "given":
             return cls.from_pgmat_gpmod_xmap(xmap=numpy.array(xm, dtype="int64"), **common, **std_args(enc, nx, k, t))
@@ -1990,6 +1998,10 @@ def gen_fac_x(rng, tier):
                     yield dict(kind="fac-uc", seed=rng.randrange(10 ** 6), n=rng.choice([2, 3, 4]), t=rng.choice([1, 2]), p=rng.choice([3, 6]), vmat=vmat, xmap=xmap,
                                unique=unique, q=rng.choice([0.05, 0.2, 0.5, 1.0]), ncross=rng.choice([1, 3]), nprogeny=rng.choice([5, 40]),
                                nself=rng.choice([0, 0, 2]) if vmat == "stub" else 0)
+        # three-parent designs: the expected parental genome contributions are unequal (1/2, 1/4, 1/4)
+        for xmap in ("given", None):
+            yield dict(kind="fac-uc", seed=rng.randrange(10 ** 6), n=rng.choice([3, 4]), t=rng.choice([1, 2]), p=3, vmat="stub", xmap=xmap, npar=3,
+                       unique=rng.choice([True, False]), q=rng.choice([0.05, 0.2, 0.5]), ncross=1, nprogeny=5, nself=rng.choice([0, 1]))
         for npar in (1, 2, 3):
             for unique in (True, False):
                 yield dict(kind="fac-ohv", fam="ohv", seed=rng.randrange(10 ** 6), n=rng.choice([3, 4, 5]), t=rng.choice([1, 2]), p=rng.choice([6, 8, 10]),
